@@ -156,10 +156,15 @@ def blank_image():
     return [0xFF] * IMAGE_SIZE
 
 
-def write_image(descs, chains, buf=None):
-    """independent writer: store each description's stream on the given granule chain (list of granule numbers)"""
+def write_image(descs, chains, buf=None, slots=None, deleted=()):
+    """independent writer: store each description's stream on the given granule chain (list of granule numbers).
+    slots: directory slot per file (default 0,1,2..); deleted: slots marked as deleted entries (first byte $00)"""
     buf = buf if buf is not None else blank_image()
-    for slot, (d, grans) in enumerate(zip(descs, chains)):
+    for s in deleted:
+        p = DIR + 32 * s
+        buf[p:p + 32] = [0x00] + [ord(c) for c in "KILLED "] + [ord(c) for c in "BAS"] + [0, 0, 0, 0, 0] + [0] * 16
+    slots = slots if slots is not None else list(range(len(descs)))
+    for slot, (d, grans) in zip(slots, zip(descs, chains)):
         st = expected_stream(d)
         need = max(1, -(-len(st) // GRAN))
         if len(grans) != need:
